@@ -74,18 +74,33 @@ async fn run_world(wi: u64, mut rng: Rng) -> anyhow::Result<Summary> {
     let tid_index: HashMap<String, usize> = nodes.iter().enumerate().map(|(i, x)| (x.tid.clone(), i)).collect();
     let mut idx: HashMap<String, usize> = HashMap::new();
     let mut cid = 800000u64 + wi * 1000;   // disjoint from the case ids of the main C02 harness
+    // what a node knows = every peer it has ever been connected to: a closed connection leaves the routing-table
+    // entry (and the name it is listed under) in place
+    let mut ever: Vec<HashSet<String>> = vec![];
+    for x in &nodes { ever.push(known(x).await); }
     for _ in 0..6 {
+        // every second world: connections close between the lookups (the peer stays known and must keep its name)
+        if wi % 2 == 1 && rng.chance(2, 3) {
+            let i = rng.below(n as u64) as usize;
+            let mut cur: Vec<String> = known(&nodes[i]).await.into_iter().collect(); cur.sort();
+            if !cur.is_empty() {
+                let j = rng.pick(&cur).clone();
+                let _ = nodes[i].transport.disconnect_peer(&j).await;
+                tokio::time::sleep(Duration::from_millis(60)).await;
+                sum.count("connection_closed");
+            }
+        }
         let o = rng.below(n as u64) as usize;
         let key: [u8; 32] = match rng.below(4) { 0 => dht_key_of(&nodes[rng.below(n as u64) as usize].tid), 1 => [0u8; 32], _ => { let b = rng.bytes(32); let mut k = [0u8; 32]; k.copy_from_slice(&b); k } };
-        let mut before: Vec<HashSet<String>> = vec![];
-        for x in &nodes { before.push(known(x).await); }
+        for (i, x) in nodes.iter().enumerate() { let k = known(x).await; ever[i].extend(k); }
+        let before: Vec<HashSet<String>> = ever.clone();
         net.take_trace();
         let use_get = rng.chance(1, 3);
         if use_get { let _ = tokio::time::timeout(Duration::from_secs(30), nodes[o].manager.get(&key)).await; }
         else { let _ = tokio::time::timeout(Duration::from_secs(30), nodes[o].manager.find_closest_nodes(&key, *rng.pick(&[3usize, 8, 20]))).await; }
         let trace = net.take_trace();
-        let mut after: Vec<HashSet<String>> = vec![];
-        for x in &nodes { after.push(known(x).await); }
+        for (i, x) in nodes.iter().enumerate() { let k = known(x).await; ever[i].extend(k); }
+        let after: Vec<HashSet<String>> = ever.clone();
         for e in trace.iter().filter(|e| !e.is_request && e.result.as_deref() == Some("NodesFound")) {
             let Some(&x) = tid_index.get(&e.from) else { continue };
             let l = &e.nodes;
